@@ -52,6 +52,12 @@ def holds(spec, toks):
             if d < 0:
                 return False
         return d == 0 and all(m in toks for m in spec['markers'])
+    if mode == 'atmost':
+        # markers present, and at most `max` of the tokens `tokens` occur
+        # fewer than `min_count` times (e.g. at most one variable eliminated)
+        low = sum(1 for t in spec['tokens'] if toks.count(t) < spec['min_count'])
+        return (all(m in toks for m in spec.get('markers', []))
+                and low <= spec['max'])
     if mode == 'strlit':
         # markers present and some string literal left (whatever its text)
         return (all(m in toks for m in spec.get('markers', []))
